@@ -83,6 +83,12 @@ func (a *c12Anchors) notClosedAtom(at Atom) (ssa.Instruction, bool) {
 	if at.Kind == "call" && !at.Pol && at.Call.Call.StaticCallee() == a.isClosed {
 		return at.Call, true
 	}
+	// the flag kept in an atomic.Bool: !closed.Load()
+	if at.Kind == "call" && !at.Pol && calleeName(&at.Call.Call) == "sync/atomic.LoadUint32" && len(at.Call.Call.Args) == 1 {
+		if fv, _ := fieldVar(at.Call.Call.Args[0]); fv == a.sClosed {
+			return at.Call, true
+		}
+	}
 	if at.Kind == "cmp" && at.Op == token.NEQ {
 		for _, side := range []ssa.Value{at.X, at.Y} {
 			if call, ok := side.(*ssa.Call); ok && calleeName(&call.Call) == "sync/atomic.LoadUint32" {
